@@ -429,3 +429,21 @@ def _proof_phase(rep, pid):
                   for l in v.split("\n")[1:] if ":" in l})
     rep.trusted.append("axioms reported by Print Assumptions: " + (", ".join(axs) if axs else "none (all theorems closed under the global context)"))
     return True
+
+
+def run(main, pid):
+    """Entry point of every check: an exception escaping the harness (typically raised by the implementation in a place
+    the harness did not anticipate) is reported as a violation with the traceback as replay, never as a bare crash."""
+    import traceback
+    try:
+        main()
+    except SystemExit:
+        raise
+    except BaseException:  # noqa
+        tb = traceback.format_exc()
+        path = write_replay(pid, {"property": pid, "kind": "exception-during-check", "repo": REPO,
+                                  "theorem": "correspondence run of %s (aborted by an exception)" % pid,
+                                  "traceback": tb[-4000:], "failing_input_found": False})
+        print("VIOLATION property=%s replay=%s no-failing-input-found" % (pid, path))
+        sys.stdout.flush()
+        sys.exit(1)
